@@ -1,6 +1,8 @@
 CONSTANTS FlawShallowListFreeze = FALSE
  FlawSharedConstants = FALSE
  FlawInPlaceSort = TRUE
+ FlawAppendSharesCapacity = FALSE
+ OnlyTargets = {}
  MaxMut = 2
  DeepVias = {"direct", "alias"}
  LastVias = {"arg", "compr", "loop"}
